@@ -32,6 +32,7 @@ def run(ctx):
     ctx.rule("R-GRD", "success requires the guard literal")
     ctx.rule("R-LOOP", "every read loop has an end-of-input exit")
     ctx.rule("R-FLOW", "operand provenance")
+    ctx.rule("R-WHO", "call sites are exactly the confirmed ones")
 
     fixed = {}
     for adt, rec in f.adts.items():
@@ -373,6 +374,11 @@ def run(ctx):
     ctx.note("observation (not a C07 violation): buffers sized by the announced PDU length before any payload byte arrives: %s" % allocs)
 
     check_payload_new(ctx, f)
+    # "it never panics": the C04 site discipline over everything reachable from the PDU readers
+    from props import C04
+    rd = [n for n, r in f.fns.items() if r.get("has_body") and n.startswith("rtr::pdu::") and
+          r["name"] in ("read", "try_read", "read_payload", "skip_payload", "to_payload", "read_or_close")]
+    C04.check_reachable_sites(ctx, f, rd, "the RTR PDU readers", 30, 40)
 
     # ---- C07.f to_payload validates through the checked constructors -------------------------------------
     mb = f.body(P + "Payload::to_payload::make_payload")
